@@ -114,6 +114,17 @@ Allowed(e) ==
             \* drawing is confined to the intersection
             /\ e.tbox[1] = 0 \/ (e.tbox[2] >= ix0 /\ e.tbox[3] >= iy0 /\ e.tbox[4] <= ix1 /\ e.tbox[5] <= iy1)
             /\ (w > 1 /\ h > 1) => e.tbox[1] > 0
+    [] e.op = "ocam" ->
+         \* orthographic camera over the box lo..hi, requested rectangle rq in a frame fw x fh, builder calls
+         \* in either order (e.ord): the point p of the box lands where the box maps linearly onto the viewport
+         LET ix0 == Max2(e.rq[1], 0)  iy0 == Max2(e.rq[2], 0)  ix1 == Min2(e.rq[3], e.fw)  iy1 == Min2(e.rq[4], e.fh)
+             w == ix1 - ix0  h == iy1 - iy0
+             bw == e.hi[1] - e.lo[1]  bh == e.hi[2] - e.lo[2]
+         IN /\ e.panic = 0
+            /\ e.dims = <<w, h>>
+            /\ OrthoOK(e.lo, e.hi, e.p, e.q)
+            /\ Near(e.pix[1] * bw, (ix0 * bw + (e.p[1] - e.lo[1]) * w) * SC, 8 * bw + (w * SC) \div 2000)
+            /\ Near(e.pix[2] * bh, (iy0 * bh + (e.p[2] - e.lo[2]) * h) * SC, 8 * bh + (h * SC) \div 2000)
     [] e.op = "fp" ->
          \* camera at pos * 2^psc looking at a target t * 2^-tsc away (t integer, |t|^2 = d2; observations
          \* scaled back by 2^tsc): rigid, pos -> 0, target -> (0, 0, d).  pm bounds |pos|: the translation
